@@ -5,7 +5,7 @@
 use std::ffi::c_int;
 use std::io::{self, Write};
 use std::ptr::{self, NonNull, null_mut};
-use std::slice;
+use std::sync::{Mutex, PoisonError};
 
 use memchr_rs::memchr;
 
@@ -85,43 +85,51 @@ impl Stdin for UnixStdin {
         print!("{prompt}");
         io::stdout().flush()?;
 
-        let mut cap = 8 * KIBI;
-        let mut buf = ArenaString::with_capacity_in(cap, arena);
-        let mut len = 0;
+        // Stdin is read unbuffered, so a single `read` can deliver more than one line.
+        // Whatever follows the newline belongs to later calls and is kept here.
+        static PENDING: Mutex<std::vec::Vec<u8>> = Mutex::new(std::vec::Vec::new());
+        let mut pending = PENDING.lock().unwrap_or_else(PoisonError::into_inner);
 
+        let mut buf = ArenaString::with_capacity_in(8 * KIBI, arena);
+        let bytes = unsafe { buf.as_mut_vec() };
+        bytes.extend_from_slice(&pending);
+        pending.clear();
+
+        let mut scanned = 0;
         loop {
-            if len == cap {
-                cap *= 2;
-                buf.reserve_exact(cap - buf.capacity());
+            let len = bytes.len();
+            let index = memchr(b'\n', bytes, scanned);
+            if index < len {
+                pending.extend_from_slice(&bytes[index + 1..]);
+                bytes.truncate(index);
+                break;
             }
+            scanned = len;
 
-            let count = cap - len;
-            let base = buf.as_ptr();
+            if len == bytes.capacity() {
+                bytes.reserve(len);
+            }
+            let spare = bytes.spare_capacity_mut();
 
             let n = unsafe {
-                libc::read(libc::STDIN_FILENO, base.add(len) as *mut libc::c_void, count)
+                libc::read(
+                    libc::STDIN_FILENO,
+                    spare.as_mut_ptr().cast::<libc::c_void>(),
+                    spare.len(),
+                )
             };
             if n < 0 {
-                return Err(io::Error::last_os_error());
+                let err = io::Error::last_os_error();
+                // Keep the partial line so that a later call can continue it.
+                pending.extend_from_slice(bytes);
+                return Err(err);
             }
             if n == 0 {
                 // EOF
                 break;
             }
-            let n = n.cast_unsigned();
 
-            len += n;
-
-            let hay = unsafe { slice::from_raw_parts(base, len) };
-            let index = memchr(b'\n', hay, len - n);
-            if index < len {
-                len = index;
-                break;
-            }
-        }
-
-        unsafe {
-            buf.as_mut_vec().set_len(len);
+            unsafe { bytes.set_len(len + n.cast_unsigned()) };
         }
 
         Ok(buf)
